@@ -139,8 +139,12 @@ def run(repo: Repo, rep: Report, tier: str) -> None:
         fn = repo.func(mname, q)
         m = repo.mod(mname)
         ws = [w for w in walk_no_nested(fn) if isinstance(w, ast.While)]
-        rep.need(len(ws) == 1, f"{mname}.{q}: expected one while loop")
-        check_progress(rep, m, fn, ws[0], f"{mname}.{q}")
+        if not ws and any(isinstance(x, ast.YieldFrom) or (isinstance(x, ast.Return) and isinstance(x.value, ast.Call) and "_generate_items" in norm(x.value.func)) for x in walk_no_nested(fn)):
+            rep.ok("termination", f"{mname}.{q} :: delegates to another item generator", "no loop of its own")
+            continue
+        rep.need(len(ws) >= 1, f"{mname}.{q}: expected a while loop")
+        for w_ in ws:
+            check_progress(rep, m, fn, w_, f"{mname}.{q}")
     # any other while loop on the decode path must be known
     n_while = 0
     for mname in ("pdu", "pdu_items"):
@@ -199,6 +203,10 @@ def check_progress(rep, mod, fn, w: ast.While, fq):
                 unsigned.add(s.targets[0].id)
             if isinstance(v, ast.Call) and dotted(v.func) == "len":
                 unsigned.add(s.targets[0].id)
+        # `kind, length = UNPACK_X(buffer, offset)`: fields of a struct whose format C01's wire-unsigned rule holds to
+        # unsigned codes
+        if isinstance(s, ast.Assign) and isinstance(s.targets[0], (ast.Tuple, ast.List)) and isinstance(s.value, ast.Call) and (norm(s.value.func).startswith("UNPACK_") or norm(s.value.func).endswith((".unpack", ".unpack_from"))):
+            unsigned |= {e_.id for e_ in s.targets[0].elts if isinstance(e_, ast.Name)}
 
     def nonneg_positive(e):
         """-> (all terms non-negative, contains a positive literal)"""
@@ -212,6 +220,8 @@ def check_progress(rep, mod, fn, w: ast.While, fq):
             return True, False
         if isinstance(e, ast.Call) and dotted(e.func) == "len":
             return True, False
+        if isinstance(e, ast.Attribute) and e.attr == "size" and isinstance(e.value, ast.Name) and e.value.id.isupper():
+            return True, True  # the size of a module-level Struct: a positive constant
         return False, False
 
     cfgw = CFG(fn, body=body_nodoc(fn), may_raise=lambda n: False)
@@ -220,7 +230,43 @@ def check_progress(rep, mod, fn, w: ast.While, fq):
     head = head_nodes[0]
     advancing = set()
     guards_nonempty = set()
+    # `cursor = cursor + E` and `nxt = cursor + E; ...; cursor = nxt` are the same advance as `cursor += E`
+    def as_increment(st):
+        """-> (cursor name, increment expr) for the three spellings, else None"""
+        if isinstance(st, ast.AugAssign) and isinstance(st.op, ast.Add) and isinstance(st.target, ast.Name):
+            return st.target.id, st.value
+        if isinstance(st, ast.Assign) and len(st.targets) == 1 and isinstance(st.targets[0], ast.Name):
+            c_, v_ = st.targets[0].id, st.value
+            if isinstance(v_, ast.Name):
+                defs_ = [d_ for d_ in ast.walk(w) if isinstance(d_, ast.Assign) and len(d_.targets) == 1 and norm(d_.targets[0]) == v_.id]
+                if len(defs_) == 1:
+                    v_ = defs_[0].value
+            terms = []
+
+            def flat(e_):
+                if isinstance(e_, ast.BinOp) and isinstance(e_.op, ast.Add):
+                    flat(e_.left)
+                    flat(e_.right)
+                else:
+                    terms.append(e_)
+
+            flat(v_)
+            mine = [t_ for t_ in terms if isinstance(t_, ast.Name) and t_.id == c_]
+            if len(mine) == 1 and len(terms) >= 2:
+                rest = [t_ for t_ in terms if t_ is not mine[0]]
+                inc = rest[0]
+                for r_ in rest[1:]:
+                    inc = ast.BinOp(left=inc, op=ast.Add(), right=r_)
+                return c_, inc
+        return None
+
     for n in cfgw.nodes:
+        inc_ = as_increment(n.ast) if n.kind == "stmt" else None
+        if inc_ is not None and not isinstance(n.ast, ast.AugAssign) and inc_[0] in cond_names and head in n.loops:
+            ok_terms, has_pos = nonneg_positive(inc_[1])
+            if ok_terms and has_pos:
+                advancing.add(n.id)
+            continue
         if n.kind == "stmt" and isinstance(n.ast, ast.AugAssign) and isinstance(n.ast.op, ast.Add) and isinstance(n.ast.target, ast.Name) and n.ast.target.id in cond_names and head in n.loops:
             ok_terms, has_pos = nonneg_positive(n.ast.value)
             if ok_terms and has_pos:
